@@ -151,6 +151,24 @@ impl CliArgs {
     }
 }
 
+/// content of a previous run's output files, or None: decided by an FNV hash of the arguments and the thread count
+fn stale_outputs(argv: &[String], outfile: &Path, threads: Option<usize>) -> Option<(String, String)> {
+    let mut h: u64 = 0xcbf29ce484222325;
+    let of = outfile.to_string_lossy().to_string();
+    for a in argv.iter().filter(|a| **a != of) {
+        for b in a.bytes() {
+            h = (h ^ b as u64).wrapping_mul(0x100000001b3);
+        }
+        h = (h ^ 0xff).wrapping_mul(0x100000001b3);
+    }
+    h = (h ^ threads.unwrap_or(0) as u64).wrapping_mul(0x100000001b3);
+    if (h >> 17) & 1 == 0 {
+        return None;
+    }
+    let pad = "x".repeat(64 * 1024);
+    Some((format!("{{\"stale\":\"left by an earlier run with the same --outfile\",\"pad\":\"{}\"}}\n", pad), format!("<svg xmlns=\"http://www.w3.org/2000/svg\"><!-- stale {} --></svg>\n", pad)))
+}
+
 /// run the binary with a hard time limit (a hang is reported as timed_out, never as a violation by itself)
 pub fn run(ctx: &Ctx, argv: &[String], outfile: &Path, threads: Option<usize>, limit_s: u64) -> Result<CliOut, String> {
     let bin = ctx.cli_bin.clone().ok_or_else(|| "PVH_CLI_BIN is not set (the CLI binary is built by ./check)".to_string())?;
@@ -168,10 +186,28 @@ pub fn run(ctx: &Ctx, argv: &[String], outfile: &Path, threads: Option<usize>, l
         }
     }
     cmd.stdin(Stdio::null()).stdout(Stdio::piped()).stderr(Stdio::piped());
+    // A user re-runs with the same --outfile: for about half of the invocations (a pure function of the arguments and the
+    // thread count) the two output files already exist and hold something longer than any result. What the run leaves
+    // must be the new result only; a file that still holds exactly the old content counts as "not written".
+    let stale = stale_outputs(argv, outfile, threads);
+    if let Some((j, s)) = &stale {
+        if !outfile.with_extension("json").exists() && !outfile.with_extension("svg").exists() {
+            let _ = std::fs::write(outfile.with_extension("json"), j);
+            let _ = std::fs::write(outfile.with_extension("svg"), s);
+        }
+    }
     let out = cmd.output().map_err(|e| format!("cannot run {}: {}", bin.display(), e))?;
     let status = out.status.code();
-    let json = std::fs::read_to_string(outfile.with_extension("json")).ok();
-    let svg = std::fs::read_to_string(outfile.with_extension("svg")).ok();
+    let mut json = std::fs::read_to_string(outfile.with_extension("json")).ok();
+    let mut svg = std::fs::read_to_string(outfile.with_extension("svg")).ok();
+    if let Some((j, s)) = &stale {
+        if json.as_deref() == Some(j.as_str()) {
+            json = None;
+        }
+        if svg.as_deref() == Some(s.as_str()) {
+            svg = None;
+        }
+    }
     Ok(CliOut { status, stderr: String::from_utf8_lossy(&out.stderr).to_string(), json, svg, timed_out: status == Some(124) || status == Some(137) })
 }
 
